@@ -48,6 +48,7 @@ class Run:
         self.cache_state = {}     # cache id -> set of option digests that used it since clear
         self.census_dirty = False
         self.cache_calls = {}
+        self.distinct = set()
         self.extra = {}
 
     # -- bookkeeping ------------------------------------------------------------
@@ -242,6 +243,7 @@ class Run:
             any(n >= 2 for n in self.cache_calls.values())
         return {
             'nontrivial': bool(nontrivial),
+            'distinct_keys': sorted(self.distinct),
             'events': self.events,
             'digest': sha(canon(self.events)),
             'violations': self.violations,
